@@ -442,3 +442,26 @@ Proof.
   - destruct (Rlt_dec x (hd0 xp)); [|lra]. destruct (Rgt_dec x (last0 xp)); [lra|]. reflexivity.
   - destruct (Rgt_dec x (last0 xp)); [|lra]. reflexivity.
 Qed.
+
+(* angular data along a PERIODIC coordinate (e.g. a direction variable on a longitude axis):
+   never missing for finite data, and again the angle of the weighted unit-vector mean of the two
+   cyclic neighbours *)
+Lemma pd_periodic_axis : forall xp rows P x np j Pd, pgrid xp P -> (j < np)%nat ->
+  (forall i, (i < length xp)%nat -> all_some (nth i rows []) = true) ->
+  let ii := enclosing xp x (Some P) in
+  let a := oget (nth (fst ii) rows []) j in
+  let b := oget (nth (snd ii) rows []) j in
+  exists t, 0 <= t < 1 /\
+    nth j (interp_axis1_pd xp rows x (Some P) false np Pd) None
+    = Some (angle_of ((1 - t) * cos (a * to_rad Pd) + t * cos (b * to_rad Pd),
+                      (1 - t) * sin (a * to_rad Pd) + t * sin (b * to_rad Pd)) Pd).
+Proof.
+  intros xp rows P x np j Pd Hg Hj Hv ii a b.
+  destruct (periodic_bracket xp P x Hg) as [t [E [Ht [Hi0 [Hi1 _]]]]]. fold ii in E, Hi0, Hi1.
+  exists t. split; [exact Ht|].
+  unfold interp_axis1_pd, axis_corners, frac_n. fold ii. rewrite E. cbn [w_lo w_hi osub].
+  unfold interp_corners_periodic. rewrite nth_map_seq by exact Hj. cbn [Nat.add].
+  rewrite periodic_vec_two; [reflexivity| |].
+  - apply Hv. exact Hi0.
+  - apply Hv. rewrite Hi1. apply Nat.mod_upper_bound. destruct Hg as [_ [Hn _]]. lia.
+Qed.
